@@ -275,3 +275,250 @@ def reachable_paths(e, max_paths=64):
                 for n in it[2]:
                     out.append((n,))
     return out[:max_paths]
+
+
+# ------------------------------------------------------------------ exhaustive binder sequences
+LIT = "lit"
+
+
+def _atom(B, e):
+    """An expression usable as a call argument (select-level)."""
+    return e if peel(e)[1][0] in ("set", "ref", "lit", "paren") and e[0] != "let" else B.paren(e)
+
+
+# general wrappers: (name, fn(B, inner) -> (expr, keys_prefix))
+def _w_let_a(B, h): return B.let([B.bind("a", B.lit())], h), []
+def _w_let_b(B, h): return B.let([B.bind("b", B.lit())], h), []
+def _w_let_inh(B, h): return B.let([B.inh(["a"])], h), []
+def _w_let_chain(B, h): return B.let([B.bind("a", B.ref("b"))], h), []
+def _w_rec_a(B, h): return B.set([B.bind("a", B.lit()), B.bind("k", h)], rec=True), ["k"]
+def _w_rec_b(B, h): return B.set([B.bind("b", B.lit()), B.bind("k", h)], rec=True), ["k"]
+def _w_rec_inh(B, h): return B.set([B.inh(["a"]), B.bind("k", h)], rec=True), ["k"]
+def _w_rec_inhf(B, h):
+    return B.set([B.inhf(["a"], B.ref("s")), B.bind("s", B.set([B.bind("a", B.lit())])), B.bind("k", h)], rec=True), ["k"]
+def _w_set_a(B, h): return B.set([B.bind("a", B.lit()), B.bind("k", h)]), ["k"]
+def _w_set_inh(B, h): return B.set([B.inh(["a"]), B.bind("k", h)]), ["k"]
+def _w_with_a(B, h): return B.with_(B.set([B.bind("a", B.lit())]), h), []
+def _w_with_b(B, h): return B.with_(B.set([B.bind("b", B.lit())]), h), []
+def _w_with_chain(B, h): return B.with_(B.set([B.bind("a", B.ref("b")), B.bind("b", B.lit())]), h), []
+def _w_with_ident(B, h):
+    return B.let([B.bind("e", B.set([B.bind("a", B.lit())]))], B.with_(B.ref("e"), h)), []
+
+
+WRAPPERS = [
+    ("let_a", _w_let_a), ("let_b", _w_let_b), ("let_inh", _w_let_inh), ("let_chain", _w_let_chain),
+    ("rec_a", _w_rec_a), ("rec_b", _w_rec_b), ("rec_inh", _w_rec_inh), ("rec_inhf", _w_rec_inhf),
+    ("set_a", _w_set_a), ("set_inh", _w_set_inh),
+    ("with_a", _w_with_a), ("with_b", _w_with_b), ("with_chain", _w_with_chain), ("with_ident", _w_with_ident),
+]
+
+
+# wrappers that only make sense at the top of the document (the route of `_resolve_target_set`)
+def _t_app_dflt(B, h):
+    return B.app(B.paren(B.lamP([("opt", "a", B.lit())], B.ref("a"))), _atom(B, h)), []
+def _t_app_simple(B, h): return B.app(B.paren(B.lam1("a", B.ref("a"))), _atom(B, h)), []
+def _t_call(B, h): return B.app(B.ref("f"), _atom(B, h)), []
+def _t_lam_dflt(B, h): return B.lamP([("opt", "a", B.lit())], h), []
+def _t_lam_req(B, h): return B.lamP([("req", "a")], h), []
+def _t_lam1(B, h): return B.lam1("a", h), []
+def _t_paren(B, h): return B.paren(h), []
+
+
+TOP_WRAPPERS = [
+    ("app_dflt", _t_app_dflt), ("app_simple", _t_app_simple), ("call", _t_call),
+    ("lam_dflt", _t_lam_dflt), ("lam_req", _t_lam_req), ("lam1", _t_lam1), ("paren", _t_paren),
+]
+
+
+def _f_plain(B): return B.set([B.bind("x", B.ref("a"))]), ["x"]
+def _f_identlet(B): return B.set([B.bind("x", B.let([B.bind("a", B.lit())], B.ref("a")))]), ["x"]
+def _f_inherit(B): return B.set([B.inh(["a"])]), ["a"]
+def _f_chain(B): return B.set([B.bind("x", B.ref("b"))], rec=False), ["x"]
+def _f_rec_self(B): return B.set([B.bind("x", B.ref("a")), B.bind("a", B.ref("x"))], rec=True), ["x"]
+
+
+FINALS = [("x=a", _f_plain), ("x=let-a", _f_identlet), ("inherit-a", _f_inherit), ("x=b", _f_chain), ("rec-cycle", _f_rec_self)]
+
+
+def build_sequence(names, final):
+    """names: wrapper names outermost first (a top wrapper may only be first)."""
+    B = Builder()
+    table = dict(WRAPPERS)
+    top = dict(TOP_WRAPPERS)
+    e, path = dict(FINALS)[final](B)
+    for n in reversed(names):
+        fn = table.get(n) or top[n]
+        e, pre = fn(B, e)
+        path = pre + path
+    return e, tuple(path)
+
+
+def sequences(max_len, top_max_len):
+    import itertools
+    gen = [n for n, _ in WRAPPERS]
+    for L in range(0, max_len + 1):
+        for seq in itertools.product(gen, repeat=L):
+            for f, _ in FINALS:
+                yield list(seq), f
+    for t, _ in TOP_WRAPPERS:
+        for L in range(0, top_max_len + 1):
+            for seq in itertools.product(gen, repeat=L):
+                for f, _ in FINALS:
+                    yield [t] + list(seq), f
+
+
+# ------------------------------------------------------------------ random programs
+NAMES = ["a", "b", "c"]
+KEYS = ["a", "b", "c", "x", "y"]
+
+
+class RandomGen:
+    def __init__(self, rng, max_depth=4):
+        self.rng = rng
+        self.max_depth = max_depth
+
+    def program(self):
+        self.B = Builder()
+        return self.expr(0, top=True)
+
+    def pick(self, pairs):
+        tot = sum(w for _, w in pairs)
+        r = self.rng.random() * tot
+        for v, w in pairs:
+            r -= w
+            if r <= 0:
+                return v
+        return pairs[-1][0]
+
+    def items(self, d, lo=1, hi=3, keys=KEYS):
+        n = self.rng.randint(lo, hi)
+        used = set()
+        out = []
+        for _ in range(n):
+            kind = self.pick([("bind", 6), ("inh", 1.2), ("inhf", 1.0)])
+            if kind == "bind":
+                name = self.rng.choice(keys)
+                if name in used:
+                    continue
+                used.add(name)
+                if self.rng.random() < 0.03:
+                    name = '"' + name + '"'
+                out.append(self.B.bind(name, self.expr(d + 1)))
+            else:
+                name = self.rng.choice(NAMES)
+                if name in used:
+                    continue
+                used.add(name)
+                if kind == "inh":
+                    out.append(self.B.inh([name]))
+                else:
+                    src = self.pick([("ref", 3), ("set", 2), ("any", 1)])
+                    if src == "ref":
+                        s = self.B.ref(self.rng.choice(NAMES))
+                    elif src == "set":
+                        s = self.B.set(self.items(d + 2, 0, 2), rec=self.rng.random() < 0.3)
+                    else:
+                        s = self.expr(d + 2)
+                    out.append(self.B.inhf([name], s))
+        if not out and lo > 0:
+            out.append(self.B.bind(self.rng.choice(keys), self.B.lit()))
+        return out
+
+    def expr(self, d, top=False):
+        B, rng = self.B, self.rng
+        if d >= self.max_depth:
+            kind = self.pick([("lit", 2), ("ref", 3)])
+        elif top:
+            kind = self.pick([("set", 4), ("let", 5), ("with", 3), ("app", 2.5), ("lam", 1.5), ("paren", 0.7), ("ref", 0.3)])
+        else:
+            kind = self.pick([("lit", 2.5), ("ref", 4), ("set", 4), ("let", 2), ("with", 1.5), ("app", 0.5),
+                              ("lam", 0.3), ("paren", 0.5)])
+        if kind == "lit":
+            return B.lit()
+        if kind == "ref":
+            return B.ref(rng.choice(NAMES))
+        if kind == "set":
+            return B.set(self.items(d, 0 if rng.random() < 0.1 else 1, 3), rec=rng.random() < 0.4)
+        if kind == "let":
+            items = self.items(d, 1, 2, keys=NAMES)
+            return B.let(items, self.expr(d + 1, top=top and rng.random() < 0.8))
+        if kind == "with":
+            env = self.pick([("set", 3), ("ref", 2), ("any", 0.5)])
+            if env == "set":
+                e = B.set(self.items(d + 1, 1, 2, keys=NAMES), rec=rng.random() < 0.25)
+            elif env == "ref":
+                e = B.ref(rng.choice(NAMES))
+            else:
+                e = self.expr(d + 2)
+            return B.with_(e, self.expr(d + 1, top=top and rng.random() < 0.8))
+        if kind == "paren":
+            return B.paren(self.expr(d + 1, top=top))
+        if kind == "lam":
+            body = self.expr(d + 1, top=top)
+            if rng.random() < 0.4:
+                return B.lam1(rng.choice(NAMES), body)
+            fs = []
+            for n in rng.sample(NAMES + ["z"], rng.randint(0, 3)):
+                fs.append(("opt", n, self.expr(d + 2)) if rng.random() < 0.5 else ("req", n))
+            return B.lamP(fs, body)
+        if kind == "app":
+            if rng.random() < 0.75:
+                body = self.expr(d + 2)
+                if rng.random() < 0.3:
+                    fn = B.paren(B.lam1(rng.choice(NAMES + ["z"]), body))
+                else:
+                    fs = []
+                    for n in rng.sample(NAMES + ["x", "z"], rng.randint(1, 3)):
+                        fs.append(("opt", n, self.expr(d + 2)) if rng.random() < 0.6 else ("req", n))
+                    fn = B.paren(B.lamP(fs, body))
+            else:
+                fn = B.ref("f")
+            a = self.pick([("set", 5), ("ref", 2), ("paren", 1)])
+            if a == "set":
+                arg = B.set(self.items(d + 1, 1, 3), rec=rng.random() < 0.3)
+            elif a == "ref":
+                arg = B.ref(rng.choice(NAMES))
+            else:
+                arg = B.paren(self.expr(d + 1, top=True))
+            return B.app(fn, arg)
+        raise AssertionError(kind)
+
+
+def all_names(e, acc=None):
+    """binding / inherit names occurring anywhere (keys worth trying after a deref)."""
+    acc = set() if acc is None else acc
+
+    def it(i):
+        if i[0] == "bind":
+            acc.add(i[2].strip('"'))
+            ex(i[3])
+        else:
+            acc.update(i[2])
+            if i[0] == "inhf":
+                ex(i[3])
+
+    def ex(e):
+        k = e[0]
+        if k == "set":
+            for i in e[3]:
+                it(i)
+        elif k == "let":
+            for i in e[1]:
+                it(i)
+            ex(e[2])
+        elif k == "with":
+            ex(e[2]); ex(e[3])
+        elif k == "paren":
+            ex(e[2])
+        elif k == "app":
+            ex(e[2]); ex(e[3])
+        elif k == "lam1":
+            ex(e[3])
+        elif k == "lamP":
+            for f in e[2]:
+                if f[0] == "opt":
+                    ex(f[2])
+            ex(e[3])
+
+    ex(e)
+    return acc
